@@ -132,6 +132,16 @@ for _p in ("C01", "C02"):
         "checklib/tr_tx.py (regex + bracket matching) extracts the transactional(..) call sites, the calls handed the cache / the base, and the "
         "calls outside the closure handed the enclosing storage; that `transactionalI` of EngineTx.lean sits at those sites is by inspection of ~250 lines"]
 
+# tie T for two decision rules: checklib/tr_rules.py regenerates CwMt/Gen/Rules.lean (execute_submsg's reply rule, verify_attributes /
+# verify_response) from wasm.rs on every run; C03.reply_rule_as_modelled / reply_on_*_is_source_rule and C13.validation_steps_as_modelled
+for _p, _what in (("C03", "the reply rule of execute_submsg (reply_on variants per outcome, Reply literal, treatment of data/events)"),
+                  ("C13", "the steps of verify_attributes / verify_response (what is trimmed, which conditions bail, over which parts)")):
+    PROPS[_p]["translators"] = list(PROPS[_p].get("translators", [])) + ["tr_rules"]
+    PROPS[_p]["technique"] += " + table of " + _what + " regenerated from wasm.rs on every run and proved to be the rule the model transcribes"
+    PROPS[_p]["trusted_base"] = list(PROPS[_p].get("trusted_base", [])) + [
+        "checklib/tr_rules.py (regex + bracket matching) extracts " + _what + "; that the model's functions implement the tabled steps is by "
+        "inspection of ~30 lines (for the mode sets it is a theorem)"]
+
 ENGINES = [
     {"name": "wasm", "path": "lean/CwMt/Model/{Engine,Registry,Wire,Bank}.lean + lean/CwMt/Driver/Wasm.lean + harness/src/{wasm,wasm_gen,wasm_gen2}.rs",
      "serves_properties": ["C01", "C02", "C03", "C04", "C05", "C08", "C10", "C11", "C12", "C13", "C19"],
